@@ -68,7 +68,13 @@ def relClass (a b : Text) : String :=
     let hcls := (!(remainder a b).2.2 && (remainder a b).1.head? == some []) == false
     let hhd := B.authority.isSome ||
       ((nsegs A.path).head? != some [] && (nsegs (Path.parent_or_empty B.path)).head? != some [])
-    if !(sameScheme && sameAuth && isAbs A.path && hpb) then "oracle-only-relative-paths"
+    if sameScheme && A.authority.isNone && B.authority.isNone && !isAbs A.path && !isAbs B.path then
+      -- roundtrip_on_class_rootless_partial
+      if (nsegs A.path).head? != some segDotDot && (nsegs (Path.parent_or_empty B.path)).head? != some segDotDot
+          && nsegs A.path != [] && hcls
+          && (nsegs A.path).head? != some [] && (nsegs (Path.parent_or_empty B.path)).head? != some []
+          && !sdCond a b then "class-rootless" else "oracle-only-rootless"
+    else if !(sameScheme && sameAuth && isAbs A.path && hpb) then "oracle-only-relative-paths"
     else if nsegs A.path == [] then
       -- roundtrip_root_partial / _noauth_partial
       if nsegs (Path.parent_or_empty B.path) != [] && !sdCond a b then "root" else "oracle-only-root"
